@@ -110,7 +110,7 @@ impl Iterator for SortingMultiReaderIterator<'_> {
         if let Some(heap_entry) = heap_entry {
             let mut m = heap_entry.m;
             m.index = self.index;
-            self.index += 1;
+            self.index = self.index.wrapping_add(1); // (the last message may carry u32::MAX)
             let mut it = heap_entry.it;
             if let Some(m) = it.next() {
                 self.min_heap.push(MinHeapEntry { m, it })
@@ -178,7 +178,7 @@ impl<'a, O: Iterator<Item = Box<dyn Iterator<Item = DltMessage> + 'a>>> Iterator
             let m = cur_it.next();
             if let Some(mut msg) = m {
                 msg.index = self.index;
-                self.index += 1;
+                self.index = self.index.wrapping_add(1); // (the last message may carry u32::MAX)
                 Some(msg)
             } else {
                 self.cur_it = self.its.next();
